@@ -2,8 +2,11 @@
 
    What is modelled (hand-written, after the code named on each definition):
      LasData.add_extra_dims / remove_extra_dims and the LasData.points setter with PointFormat.__eq__ /
-     DimensionInfo.__eq__ (lasdata.py, point/format.py, point/dims.py), LasHeader.add_extra_dims / remove_extra_dims /
-     _sync_extra_bytes_vlr and the extra-dimension part of LasHeader.read_from (header.py),
+     DimensionInfo.__eq__ (lasdata.py, point/format.py, point/dims.py), LasHeader.__init__ on a PointFormat that already
+     carries extra dimensions, LasHeader.add_extra_dims / remove_extra_dims / _sync_extra_bytes_vlr and the
+     extra-dimension part of LasHeader.read_from, including un-registered trailing bytes (header.py),
+     the extra-dimension / VLR part of laspy.convert (lib.py: the standard block of the converted record is C12's subject
+     and a parameter here),
      PointFormat.add_extra_dimension / remove_extra_dimension (point/format.py),
      PackedPointRecord.zeros + copy_fields_from (point/record.py: a new zeroed record, fields copied by name),
      ExtraBytesVlr.record_data_bytes / parse_record_data / type_of_extra_dims (vlrs/known.py).
@@ -210,7 +213,11 @@ Inductive op :=
 | Assign (name : list Z) (vals : list (list Z))    (* raw values of one extra dimension, one per record *)
 | AssignStd (vals : list (list Z))                 (* raw bytes of the standard dimensions, one block per record *)
 | SetPoints (ex : list edim) (recs : list (list Z)) (* las.points = <a record whose own PointFormat has the extra dimensions ex> *)
-| RoundTrip.                                       (* las = laspy.read(las.write(...)) *)
+| RoundTrip                                        (* las = laspy.read(las.write(...)) *)
+| Convert (g : Z) (stds : list (list Z))           (* las = laspy.convert(las, point_format_id=g); stds: the standard block of
+                                                      every converted record (which dimensions survive there is C12) *)
+| Reread (keep : option Z).                        (* write a file whose extra-bytes VLR registers only the first k dimensions
+                                                      (Some k) or that has no extra-bytes VLR (None), then read it *)
 
 Definition find_dim (n : list Z) (ex : list edim) : option edim := find (fun d => name_eqb (ed_name d) n) ex.
 
@@ -325,6 +332,9 @@ Definition bytes_of_string (s : string) : list Z := map (fun c => Z.of_nat (nat_
 Definition UNREG_NAME : list Z := bytes_of_string "ExtraBytes".
 Definition UNREG_DESC : list Z := bytes_of_string "Un-registered ExtraBytes".
 
+(* the dimension the reader makes of point bytes no descriptor registers *)
+Definition unreg (n : Z) : edim := mkED UNREG_NAME (opaque_type n) None UNREG_DESC.
+
 (* LasHeader.read_from, the part after the VLRs were read, then the records cut by the resulting format *)
 Definition read_state (w : wire) : result state :=
   match std_size (w_fmt w) with
@@ -339,9 +349,7 @@ Definition read_state (w : wire) : result state :=
       let '(vl, ex) := r in
       let fs := std + extras_size ex in
       if w_psize w <? fs then Err ELaspy else
-      let ex' := if w_psize w >? fs
-                 then ex ++ [mkED UNREG_NAME (opaque_type (w_psize w - fs)) None UNREG_DESC]
-                 else ex in
+      let ex' := if w_psize w >? fs then ex ++ [unreg (w_psize w - fs)] else ex in
       if forallb (fun b => len b =? w_psize w) (w_recs w)
       then Ok (mkSt (w_fmt w) ex' (map (split_rec std ex') (w_recs w)) vl)
       else Err EValue
@@ -356,6 +364,42 @@ Definition do_roundtrip (s : state) : state * result unit :=
             end
   end.
 
+(* laspy.convert: a new PointFormat of the target id gets the source's extra dimensions (the very DimensionInfo objects:
+   names, types, scales, offsets, descriptions, order), the header copy is given that format through the point_format
+   setter — which re-synchronises the extra-bytes VLR (taken out, rebuilt, appended at the end) —, the record is
+   re-made for the new format and every dimension both formats have is copied by name, so every extra dimension keeps
+   its raw values.  What becomes of the standard dimensions is property C12: here the new standard blocks are a
+   parameter (the correspondence check passes the blocks laspy produced). *)
+Definition do_convert (s : state) (g : Z) (stds : list (list Z)) : state * result unit :=
+  match std_size g with
+  | None => (s, Err ELaspy)
+  | Some gstd =>
+      if (length stds =? length (st_recs s))%nat && forallb (fun v => (len v =? gstd) && bytes_ok v) stds
+      then match sync_vlrs (st_extras s) (st_vlrs s) with
+           | Ok vl => (mkSt g (st_extras s) (map (fun p => (fst p, snd (snd p))) (combine stds (st_recs s))) vl, Ok tt)
+           | Err e => (s, Err e)
+           end
+      else (s, Err EValue)
+  end.
+
+(* a file whose extra-bytes VLR registers only part of the extra bytes (written by other software, or by laspy after the
+   descriptor list was shortened): the VLR keeps its first k descriptors, or is absent *)
+Definition cut_vlr (k : Z) (v : vlr) : vlr :=
+  if is_eb_vlr v then mkVlr (v_uid v) (v_rid v) (v_desc v) (firstn (Z.to_nat k * EB) (v_data v)) else v.
+Definition trunc_vlrs (keep : option Z) (vl : list vlr) : list vlr :=
+  match keep with
+  | None => filter not_eb vl
+  | Some k => map (cut_vlr k) vl
+  end.
+Definition do_reread (s : state) (keep : option Z) : state * result unit :=
+  match write_state s with
+  | Err e => (s, Err e)
+  | Ok w => match read_state (mkWire (w_fmt w) (w_psize w) (trunc_vlrs keep (w_vlrs w)) (w_recs w)) with
+            | Ok s' => (s', Ok tt)
+            | Err e => (s, Err e)
+            end
+  end.
+
 Definition step (s : state) (o : op) : state * result unit :=
   match o with
   | Add ps => do_add s ps
@@ -364,6 +408,8 @@ Definition step (s : state) (o : op) : state * result unit :=
   | AssignStd vals => do_assign_std s vals
   | SetPoints ex recs => do_set_points s ex recs
   | RoundTrip => do_roundtrip s
+  | Convert g stds => do_convert s g stds
+  | Reread keep => do_reread s keep
   end.
 
 Definition run (s : state) (ops : list op) : state := fold_left (fun s o => fst (step s o)) ops s.
@@ -378,6 +424,19 @@ Fixpoint trace (s : state) (ops : list op) : list (state * result unit) :=
 Definition init (fmt : Z) (stds : list (list Z)) (vl : list vlr) : state :=
   mkSt fmt [] (map (fun b => (b, [])) stds) vl.
 
+(* a LasData made from a PointFormat that already carries the extra dimensions ex (laspy.create(point_format=fmt),
+   LasHeader(point_format=fmt) + LasData / laspy.open(mode="w")): LasHeader.__init__ synchronises the extra-bytes VLR
+   into its empty VLR list; the other VLRs are appended afterwards (eb_last = false) or assigned through the vlrs
+   setter, which synchronises again (eb_last = true).  recs: all bytes of every point. *)
+Definition init_ex (fmt : Z) (ex : list edim) (recs : list (list Z)) (vl : list vlr) (eb_last : bool) : result state :=
+  match std_size fmt with
+  | None => Err ELaspy
+  | Some std =>
+      do p <- eb_payload ex;
+      let ebs := match ex with [] => [] | _ => [eb_vlr p] end in
+      Ok (mkSt fmt ex (map (split_rec std ex) recs) (if eb_last then vl ++ ebs else ebs ++ vl))
+  end.
+
 (* ------------------------------------------------------------------------------------ *)
 (* the hypothesis on names, the invariant                                                *)
 (* ------------------------------------------------------------------------------------ *)
@@ -388,12 +447,23 @@ Definition std_names (fmt : Z) : list (list Z) :=
   ++ flat_map (fun row => if fst row =? fmt then map (fun f => let '(n, _, _) := f in bytes_of_string n) (snd row) else [])
               sub_fields.
 
+Definition reread_kept (keep : option Z) (ex : list edim) : list edim :=
+  match keep with None => [] | Some k => firstn (Z.to_nat k) ex end.
+
 (* the names an Add introduces are new: pairwise different, not extra dimensions already, not standard names *)
 Definition op_okb (s : state) (o : op) : bool :=
   match o with
   | Add ps => nodupb (extra_names ps)
               && forallb (fun n => negb (mem_name n (extra_names (st_extras s))) && negb (mem_name n (std_names (st_fmt s))))
                          (extra_names ps)
+  | Convert g _ =>        (* no extra dimension is called like a standard dimension of the target format *)
+      forallb (fun n => negb (mem_name n (std_names g))) (extra_names (st_extras s))
+  | Reread keep =>        (* the dimension "ExtraBytes" the reader invents is new (or every dimension stays registered), and
+                             it is one of the opaque arrays the property speaks about: at most 255 bytes *)
+      let kept := reread_kept keep (st_extras s) in
+      (length kept =? length (st_extras s))%nat
+      || (negb (mem_name UNREG_NAME (extra_names kept)) && negb (mem_name UNREG_NAME (std_names (st_fmt s)))
+          && (extras_size (skipn (length kept) (st_extras s)) <=? 255))
   | _ => true
   end.
 Fixpoint ops_okb (s : state) (ops : list op) : bool :=
@@ -411,8 +481,13 @@ Definition op_names (o : op) : list (list Z) :=
   | AssignStd _ => []
   | SetPoints ex _ => extra_names ex          (* every dimension of the record *)
   | RoundTrip => []
+  | Convert _ _ => []
+  | Reread _ => [UNREG_NAME]                  (* the dimension that takes the bytes no descriptor registers any more *)
   end.
-Definition op_touches_std (o : op) : bool := match o with AssignStd _ | SetPoints _ _ => true | _ => false end.
+Definition op_touches_std (o : op) : bool := match o with AssignStd _ | SetPoints _ _ | Convert _ _ => true | _ => false end.
+(* operations that rebuild the extra-bytes VLR from the point format (header._sync_extra_bytes_vlr) *)
+Definition op_syncs (o : op) : bool := match o with Add _ | Remove _ | Convert _ _ => true | _ => false end.
+Definition op_rereads (o : op) : bool := match o with Reread _ => true | _ => false end.
 
 Definition field_of (n : list Z) (r : xrec) : option (list Z) := lookup n (snd r).
 
@@ -430,11 +505,29 @@ Definition vlr_inv (ex : list edim) (vl : list vlr) : Prop :=
   | _ => exists p, eb_payload ex = Ok p /\ filter is_eb_vlr vl = [eb_vlr p] /\ dec_ebs (length p) p = Ok ex
   end.
 
-Record Inv (s : state) : Prop := mkInv {
+(* the base invariant: record layout = format, legal parameters, distinct names that are no standard names *)
+Record InvB (s : state) : Prop := mkInvB {
   inv_fmt : exists std, std_size (st_fmt s) = Some std /\ 0 <= std
             /\ forall r, In r (st_recs s) -> rec_wf std (st_extras s) r;        (* layout; gives (I2), see rec_wf_len *)
   inv_dims : forallb edim_okb (st_extras s) = true;
   inv_names : nodupb (extra_names (st_extras s)) = true
-              /\ forallb (fun n => negb (mem_name n (std_names (st_fmt s)))) (extra_names (st_extras s)) = true;
-  inv_vlr : vlr_inv (st_extras s) (st_vlrs s)                                    (* (I3) *)
+              /\ forallb (fun n => negb (mem_name n (std_names (st_fmt s)))) (extra_names (st_extras s)) = true
 }.
+
+(* the full invariant: base + (I3).  It holds for every in-memory LasData laspy builds, after every add / remove /
+   conversion, and for every file whose extra-bytes VLR registers all extra bytes. *)
+Definition Inv (s : state) : Prop := InvB s /\ vlr_inv (st_extras s) (st_vlrs s).
+
+(* what holds right after reading a file that has un-registered trailing bytes, until the next add / remove /
+   conversion rebuilds the VLR: the VLR (if any) describes exactly the dimensions before the last one, and the last
+   one is the opaque "ExtraBytes" dimension holding the n bytes nothing registers *)
+Definition vlr_desc (reg : list edim) (vl : list vlr) : Prop :=
+  match filter is_eb_vlr vl with
+  | [] => reg = []
+  | [v] => exists p, eb_payload reg = Ok p /\ v = eb_vlr p /\ dec_ebs (length p) p = Ok reg
+  | _ => False
+  end.
+Definition vlr_part (ex : list edim) (vl : list vlr) : Prop :=
+  exists reg n, ex = reg ++ [unreg n] /\ 1 <= n /\ vlr_desc reg vl.
+Definition Inv2 (s : state) : Prop :=
+  InvB s /\ (vlr_inv (st_extras s) (st_vlrs s) \/ vlr_part (st_extras s) (st_vlrs s)).
